@@ -1,5 +1,8 @@
 import KpModel.Db.MergeLemmas
 import KpModel.Db.MergeInv
+import KpModel.Db.MergeLww
+import KpModel.Db.MergeLwwG
+import KpModel.Db.MergeLwwH
 import KpModel.Db.MergeSpec
 /-!
 # C14 — merge keeps the newest version of every node and every historical version
@@ -177,5 +180,109 @@ theorem C14_destination_nodes_kept (now : Int) (dst src d' : Db) (evs : List Eve
     (hn : (uuidsL dst.root.children).Nodup) (h : merge now dst src = .ok (d', evs)) :
     ∀ u ∈ uuidsL dst.root.children, u ∈ uuidsL d'.root.children ∨ tombsContain d'.tombs u = true :=
   merge_keeps now dst src d' evs ⟨hr, hn⟩ h
+
+/-- **C14 (last writer wins, for the whole merge)**: an entry that both replicas hold has, wherever the merge leaves it, the
+    content (every field, the opaque `content` token) of the destination's version unless the source's modification time is
+    strictly later, in which case it has the source's — whatever else the merge did: relocations of the entry or of groups
+    above it, repeated passes, other entries' updates, the deletion passes.  For every destination and source that are groups
+    with pairwise distinct UUIDs below them; a missing destination time counts as `now`, a missing source time as the epoch,
+    as in `Entry::merge`.  (The modification *time* is not claimed: when both versions have the same content and history the
+    code leaves the destination's time stamp alone, `has_diverged_from` ignores times.) -/
+theorem C14_entry_last_writer_wins (now : Int) (dst src d' : Db) (evs : List Event)
+    (hr : dst.root.isGroup = true) (hn : (uuidsL dst.root.children).Nodup)
+    (hrs : src.root.isGroup = true) (hns : (uuidsL src.root.children).Nodup)
+    (h : merge now dst src = .ok (d', evs))
+    (pd ps pr : List Nat) (de se e' : Entry)
+    (hd : findEntry dst.root pd = some de) (hs : findEntry src.root ps = some se) (hu : de.d.uuid = se.d.uuid)
+    (hres : findEntry d'.root pr = some e') (hu' : e'.d.uuid = se.d.uuid) :
+    e'.d.content = if de.d.times.mtime.getD now ≥ se.d.times.mtime.getD 0 then de.d.content else se.d.content :=
+  merge_entry_lww now dst src d' evs ⟨hr, hn⟩ ⟨hrs, hns⟩ h pd ps pr de se e' hd hs hu hres hu'
+
+/-- the premises are met by a non-trivial pair: the entry sits in a sub-group in the destination and directly below the root
+    in the source, the source's version is newer and wins -/
+def exLwwDst : Db := ⟨.group 1 0 ⟨some 5, none, 0⟩ [.group 2 0 ⟨some 5, none, 0⟩ [.entry ⟨⟨10, 7, ⟨some 20, none, 0⟩⟩, some []⟩]], []⟩
+def exLwwSrc : Db := ⟨.group 1 0 ⟨some 5, none, 0⟩ [.group 2 0 ⟨some 5, none, 0⟩ [], .entry ⟨⟨10, 9, ⟨some 30, some 25, 0⟩⟩, some []⟩], []⟩
+def exLwwRes : Db := ⟨.group 1 0 ⟨some 5, none, 0⟩ [.group 2 0 ⟨some 5, none, 0⟩
+  [.entry ⟨⟨10, 9, ⟨some 30, some 25, 0⟩⟩, some [⟨10, 7, ⟨some 20, none, 0⟩⟩]⟩]], []⟩
+set_option maxRecDepth 4000 in
+example : merge 100 exLwwDst exLwwSrc = .ok (exLwwRes, [(.entryUpdated, 10)]) := by
+  simp [merge, exLwwDst, exLwwSrc, exLwwRes, mergeRoot, groupMergeData, groupCount, groupCountL, mergePasses, mergeGroup, mergeEntries,
+    mergeSubgroups, mergeEntryStep, findLoc, findLocL, findLocG, findEntry, findGroup, getPath, updatePath, updFirst, entryUpdate,
+    entryDiverged, entryMerge, mergeHistory, historyMerge, phase1, phase2, srcItems, hasUncommitted, insertDesc, keepLoc, St.ev,
+    mergeDeletions, deleteEntries, deleteGroups, deletionFuel, tombsContain, Node.children, Node.uuid, Node.isGroup, Node.setChildren,
+    bind, Except.bind, pure, Except.pure]
+example : findEntry exLwwDst.root [2, 10] = some ⟨⟨10, 7, ⟨some 20, none, 0⟩⟩, some []⟩
+    ∧ findEntry exLwwSrc.root [10] = some ⟨⟨10, 9, ⟨some 30, some 25, 0⟩⟩, some []⟩
+    ∧ findEntry exLwwRes.root [2, 10] = some ⟨⟨10, 9, ⟨some 30, some 25, 0⟩⟩, some [⟨10, 7, ⟨some 20, none, 0⟩⟩]⟩ := by
+  refine ⟨?_, ?_, ?_⟩ <;> simp [findEntry, getPath, exLwwDst, exLwwSrc, exLwwRes, Node.children, Node.uuid, Node.isGroup]
+example : (uuidsL exLwwDst.root.children).Nodup ∧ (uuidsL exLwwSrc.root.children).Nodup := by decide
+
+/-- **C14 (last writer wins for groups, for the whole merge)**: a group below the root that both replicas hold has, wherever
+    the merge leaves it, its own data (name, notes, icon, settings: the opaque `content` token) from the destination unless the
+    source's modification time is strictly later, in which case from the source — whatever else the merge did.  For every
+    destination and source that are groups with pairwise distinct UUIDs below them and a root UUID of their own. -/
+theorem C14_group_last_writer_wins (now : Int) (dst src d' : Db) (evs : List Event)
+    (hr : dst.root.isGroup = true) (hn : (uuidsL dst.root.children).Nodup) (hfd : dst.root.uuid ∉ uuidsL dst.root.children)
+    (hrs : src.root.isGroup = true) (hns : (uuidsL src.root.children).Nodup) (hfs : src.root.uuid ∉ uuidsL src.root.children)
+    (h : merge now dst src = .ok (d', evs))
+    (pd ps pr : List Nat) (u dc : Nat) (dt : Times) (dch : List Node) (sc : Nat) (st : Times) (sch : List Node)
+    (rc : Nat) (rt : Times) (rch : List Node) (hpd : pd ≠ []) (hps : ps ≠ [])
+    (hd : getPath dst.root pd = some (.group u dc dt dch)) (hs : getPath src.root ps = some (.group u sc st sch))
+    (hres : getPath d'.root pr = some (.group u rc rt rch)) :
+    rc = if dt.mtime.getD now ≥ st.mtime.getD 0 then dc else sc :=
+  merge_group_lww now dst src d' evs ⟨hr, hn⟩ hfd ⟨hrs, hns⟩ hfs h pd ps pr u dc dt dch sc st sch rc rt rch hpd hps hd hs hres
+
+/-- the premises are met by a non-trivial pair: the source renamed the sub-group later -/
+def exLwwGSrc : Db := ⟨.group 1 0 ⟨some 5, none, 0⟩ [.group 2 4 ⟨some 8, none, 0⟩ []], []⟩
+def exLwwGRes : Db := ⟨.group 1 0 ⟨some 5, none, 0⟩ [.group 2 4 ⟨some 8, none, 0⟩ [.entry ⟨⟨10, 7, ⟨some 20, none, 0⟩⟩, some []⟩]], []⟩
+set_option maxRecDepth 4000 in
+example : merge 100 exLwwDst exLwwGSrc = .ok (exLwwGRes, [(.groupUpdated, 2)]) := by
+  simp [merge, exLwwDst, exLwwGSrc, exLwwGRes, mergeRoot, groupMergeData, groupCount, groupCountL, mergePasses, mergeGroup, mergeEntries,
+    mergeSubgroups, findLoc, findLocL, findLocG, findGroup, getPath, updatePath, updFirst, St.ev,
+    mergeDeletions, deleteEntries, deleteGroups, deletionFuel, tombsContain, Node.children, Node.uuid, Node.isGroup, Node.setChildren,
+    bind, Except.bind, pure, Except.pure]
+example : getPath exLwwDst.root [2] = some (.group 2 0 ⟨some 5, none, 0⟩ [.entry ⟨⟨10, 7, ⟨some 20, none, 0⟩⟩, some []⟩])
+    ∧ getPath exLwwGSrc.root [2] = some (.group 2 4 ⟨some 8, none, 0⟩ [])
+    ∧ getPath exLwwGRes.root [2] = some (.group 2 4 ⟨some 8, none, 0⟩ [.entry ⟨⟨10, 7, ⟨some 20, none, 0⟩⟩, some []⟩]) := by
+  refine ⟨?_, ?_, ?_⟩ <;> simp [getPath, exLwwDst, exLwwGSrc, exLwwGRes, Node.children, Node.uuid]
+example : (uuidsL exLwwGSrc.root.children).Nodup ∧ exLwwDst.root.uuid ∉ uuidsL exLwwDst.root.children
+    ∧ exLwwGSrc.root.uuid ∉ uuidsL exLwwGSrc.root.children := by decide
+
+/-- **C14 (the history union, for the whole merge)**: an entry that both replicas hold, with different modification times, has
+    in the result of the merge a history that represents — by modification time, the key `History::merge_with` unites by —
+    every history item of the destination's version and every history item of the source's version, and, when the two versions
+    differ in content or history, the losing side's current version if that was not yet in its own history.  (When the two
+    versions have the same content and history nothing is merged; that the merged history is newest first without a time
+    twice is `history_merge_spec`.)  For every destination and source that are groups with pairwise distinct UUIDs below them. -/
+theorem C14_history_union (now : Int) (dst src d' : Db) (evs : List Event)
+    (hr : dst.root.isGroup = true) (hn : (uuidsL dst.root.children).Nodup)
+    (hrs : src.root.isGroup = true) (hns : (uuidsL src.root.children).Nodup)
+    (h : merge now dst src = .ok (d', evs))
+    (pd ps pr : List Nat) (de se e' : Entry)
+    (hd : findEntry dst.root pd = some de) (hs : findEntry src.root ps = some se) (hu : de.d.uuid = se.d.uuid)
+    (hne : de.d.times.mtime.getD now ≠ se.d.times.mtime.getD 0)
+    (hres : findEntry d'.root pr = some e') (hu' : e'.d.uuid = se.d.uuid) :
+    (∀ t ∈ histTimes de, t ∈ histTimes e') ∧ (∀ t ∈ histTimes se, t ∈ histTimes e')
+    ∧ (entryDiverged de se = true → de.d.times.mtime.getD now < se.d.times.mtime.getD 0 → hasUncommitted de = true →
+        ∀ t, de.d.times.mtime = some t → t ∈ histTimes e')
+    ∧ (entryDiverged de se = true → de.d.times.mtime.getD now > se.d.times.mtime.getD 0 → hasUncommitted se = true →
+        ∀ t, se.d.times.mtime = some t → t ∈ histTimes e') :=
+  merge_entry_history now dst src d' evs ⟨hr, hn⟩ ⟨hrs, hns⟩ h pd ps pr de se e' hd hs hu hne hres hu'
+
+/-- the premises are met by a pair with histories on both sides; the result represents 20 (the loser's current version), 15, 10 -/
+def exHDst : Db := ⟨.group 1 0 ⟨some 5, none, 0⟩ [.entry ⟨⟨10, 7, ⟨some 20, none, 0⟩⟩, some [⟨10, 6, ⟨some 10, none, 0⟩⟩]⟩], []⟩
+def exHSrc : Db := ⟨.group 1 0 ⟨some 5, none, 0⟩ [.entry ⟨⟨10, 9, ⟨some 30, none, 0⟩⟩, some [⟨10, 8, ⟨some 15, none, 0⟩⟩]⟩], []⟩
+def exHRes : Db := ⟨.group 1 0 ⟨some 5, none, 0⟩ [.entry ⟨⟨10, 9, ⟨some 30, none, 0⟩⟩,
+  some [⟨10, 7, ⟨some 20, none, 0⟩⟩, ⟨10, 8, ⟨some 15, none, 0⟩⟩, ⟨10, 6, ⟨some 10, none, 0⟩⟩]⟩], []⟩
+set_option maxRecDepth 4000 in
+example : merge 100 exHDst exHSrc = .ok (exHRes, [(.entryUpdated, 10)]) := by
+  simp [merge, exHDst, exHSrc, exHRes, mergeRoot, groupMergeData, groupCount, groupCountL, mergePasses, mergeGroup, mergeEntries,
+    mergeSubgroups, mergeEntryStep, findLoc, findLocL, findEntry, getPath, updatePath, updFirst, entryUpdate,
+    entryDiverged, entryMerge, mergeHistory, historyMerge, phase1, phase2, srcItems, hasUncommitted, insertDesc, keepLoc, St.ev,
+    mergeDeletions, deleteEntries, deleteGroups, deletionFuel, tombsContain, Node.children, Node.uuid, Node.isGroup, Node.setChildren,
+    bind, Except.bind, pure, Except.pure]
+example : (findEntry exHDst.root [10]).map histTimes = some [10] ∧ (findEntry exHSrc.root [10]).map histTimes = some [15]
+    ∧ (findEntry exHRes.root [10]).map histTimes = some [20, 15, 10] := by
+  refine ⟨?_, ?_, ?_⟩ <;> simp [findEntry, getPath, exHDst, exHSrc, exHRes, Node.children, Node.uuid, histTimes]
 
 end Kp.Merge
